@@ -29,7 +29,17 @@ type overlapObserver struct {
 	n                 int64
 }
 
-func (o *overlapObserver) enter() {
+// enter marks the BEGIN of a callback. Grammar is judged on the order in which callbacks begin
+// (the kernel theorem's "callback-begin subsequence"): a callback that begins after a terminal
+// callback has begun is a delivery after the terminal.
+func (o *overlapObserver) enter(terminal bool) {
+	if terminal {
+		if !atomic.CompareAndSwapInt32(&o.done, 0, 1) {
+			atomic.AddInt32(&o.after, 1)
+		}
+	} else if atomic.LoadInt32(&o.done) != 0 {
+		atomic.AddInt32(&o.after, 1)
+	}
 	v := atomic.AddInt32(&o.inside, 1)
 	for {
 		m := atomic.LoadInt32(&o.maxInside)
@@ -37,21 +47,31 @@ func (o *overlapObserver) enter() {
 			break
 		}
 	}
-	if atomic.LoadInt32(&o.done) != 0 {
-		atomic.AddInt32(&o.after, 1)
-	}
 	// widen the window
-	for i := 0; i < 20; i++ {
+	for i := 0; i < 6; i++ {
 		runtime.Gosched()
 	}
 }
-func (o *overlapObserver) leave()                                          { atomic.AddInt32(&o.inside, -1) }
-func (o *overlapObserver) Next(v int)                                      { o.NextWithContext(context.Background(), v) }
-func (o *overlapObserver) NextWithContext(ctx context.Context, v int)      { o.enter(); atomic.AddInt64(&o.n, 1); o.leave() }
+func (o *overlapObserver) leave() { atomic.AddInt32(&o.inside, -1) }
+
+// leaveValue: a value callback that is still running when a terminal callback begins (or begins
+// after it) has not been delivered "before the terminal": the observer sees N … C … N-end.
+func (o *overlapObserver) leaveValue() {
+	if atomic.LoadInt32(&o.done) != 0 {
+		atomic.AddInt32(&o.after, 1)
+	}
+	atomic.AddInt32(&o.inside, -1)
+}
+func (o *overlapObserver) Next(v int) { o.NextWithContext(context.Background(), v) }
+func (o *overlapObserver) NextWithContext(ctx context.Context, v int) {
+	o.enter(false)
+	atomic.AddInt64(&o.n, 1)
+	o.leaveValue()
+}
 func (o *overlapObserver) Error(err error)                                 { o.ErrorWithContext(context.Background(), err) }
-func (o *overlapObserver) ErrorWithContext(ctx context.Context, err error) { o.enter(); atomic.StoreInt32(&o.done, 1); o.leave() }
+func (o *overlapObserver) ErrorWithContext(ctx context.Context, err error) { o.enter(true); o.leave() }
 func (o *overlapObserver) Complete()                                       { o.CompleteWithContext(context.Background()) }
-func (o *overlapObserver) CompleteWithContext(ctx context.Context)         { o.enter(); atomic.StoreInt32(&o.done, 1); o.leave() }
+func (o *overlapObserver) CompleteWithContext(ctx context.Context)         { o.enter(true); o.leave() }
 func (o *overlapObserver) IsClosed() bool                                  { return false }
 func (o *overlapObserver) HasThrown() bool                                 { return false }
 func (o *overlapObserver) IsCompleted() bool                               { return false }
